@@ -7,7 +7,7 @@ FactorTableD only holds numbers coprime to 2·3·5·7·11.  Here it is reduced t
 
 * for `x < 20^4`, `get_k(x) = π(x^(1/4))`, so every level `b > k` has `p_b⁴ > x`, i.e. `x / p_b³ < p_b`: no D leaf (`Spec.D = 0`);
 * the REAL control flow of `D_thread` (D.cpp:55-171) then returns 0 for every work item and ANY `k`: either `min_b > max_b`, or the segment loop
-  is entered and the loop head of its first level `b = min_b` takes `goto next_segment` in every segment (D.cpp:113-114 / 151-152) — before
+  is entered and the loop head of its first level `b = min_b` takes `goto next_segment` in every segment (D.cpp:110-111 / 149-150) — before
   `sieve.count`, `factor.is_leaf` or `cross_off_count` are reached (`d_thread_noleaf`: no Sieve / FactorTableD contract is used at all);
 * the ordering facts `x^(1/3) < y < √x`, `y ≤ z < √x` and those of `x⋆` hold from `x = 16` on (C12 stated them from 64 on): `gourdon_order_ge16`.
 
